@@ -161,7 +161,7 @@ class VttContext:
       self._paragraphs[-1].append_text("\n")
 
     if isinstance(element, model.Text):
-      self._paragraphs[-1].append_text(element.get_text())
+      self._paragraphs[-1].append_text(style.escape_cue_text(element.get_text()))
 
   def process_p(self, region: ISD.Region, element: model.P, begin: Fraction, end: Optional[Fraction]):
     """Process p element"""
